@@ -63,7 +63,7 @@ def gen_scenario(rng, profile: dict) -> dict:
     for i in range(ncalls):
         c = {"base": 10 ** (i % 5) * (1 + i // 5) + i}
         if rng.random() < profile.get("fail", 0.0):
-            c["fail"] = rng.choice(["value", "user", "json"])
+            c["fail"] = rng.choice(["value", "user", "json", "base"])
         if rng.random() < profile.get("gate_p", 0.35):
             c["gate"] = len(gates)
             gates.append(len(gates))
@@ -297,7 +297,7 @@ def judge(model, scen: dict, out: dict) -> dict:
                 else:
                     src = scen["calls"][e[1]]
                     want = {"value": ("ValueError", repr(("boom", e[1]))), "user": ("UserError", repr(("boom", e[1]))),
-                            "json": ("JSONDecodeError", None)}[src["fail"]]
+                            "json": ("JSONDecodeError", None), "base": ("StopWork", repr(("boom", e[1])))}[src["fail"]]
                     cancelled_dep = any(results.get(str(j), {}).get("state") == "cancelled" for j in deps_of(scen["calls"][i]))
                     if r["exc"] != want[0] and not (cancelled_dep and r["exc"] == "CancelledError"):
                         oracles.append({"oracle": "exception_class", "i": i, "got": r, "expected": want})
@@ -308,7 +308,7 @@ def judge(model, scen: dict, out: dict) -> dict:
         # ---- after shutdown(wait=True): all done, no processes (C02/C12); shutdown raised only a call's exception (C05)
         for cmd in obs.get("cmds", []):
             if cmd["c"] == "shutdown":
-                if cmd.get("raised") and cmd["raised"] not in ("ValueError", "UserError", "JSONDecodeError"):
+                if cmd.get("raised") and cmd["raised"] not in ("ValueError", "UserError", "JSONDecodeError", "StopWork"):
                     oracles.append({"oracle": "shutdown_raised", "exc": cmd["raised"]})
             if cmd.get("harness_exc"):
                 raise InfraError("runner command failed: " + cmd["harness_exc"])
